@@ -82,6 +82,19 @@ def run(ctx):
                     eqs = [1 for (_e, _tb, f2) in cb.all_edge_facts() if as_cmp(f2)] or [1 for bb_, t2 in cb.calls() if (callee_name(t2) or "").endswith("PartialEq::eq")]
                     if eqs:
                         member.append(e)
+    # table form: the step's authorised keys resolved once into a map keyed by the elements of step.pub_keys; a link counts only if
+    # `table.get(<key id it is filed under>)` is Some
+    step_tables = []
+    GETS = ("std::collections::HashMap::get", "std::collections::BTreeMap::get")
+    for (e, f) in facts:
+        if f[0] == "variant" and f[2] == "Some":
+            lvt = b.trace(f[1], (), lambda tt: callee_name(tt) in GETS)
+            for l in lvt:
+                if l.kind == "call" and callee_name(l.data[1]) in GETS and not l.path and root_ids(b, l.data[1]["args"][1]) == signer_roots \
+                        and not P.is_verified_layout(l.data[1]["args"][0], (fld("keys"),)) \
+                        and P.is_verified_layout(l.data[1]["args"][0], (fld("steps"), ELEM, fld("pub_keys"), ELEM), (ELEM, F0)):
+                    member.append(e)
+                    step_tables.append((l.data[0], l.data[1], frozenset(root_ids(b, l.data[1]["args"][0]))))
     ctx.inst("C02/D1", "link counted only if its signer is in the step's pub_keys", bool(member),
              ("membership fact(s) on edge(s) %s dominate the insertion" % member) if member else
              "no dominating fact `step.pub_keys contains <key id the link is filed under>` before the link is added to the verified set: "
@@ -119,7 +132,17 @@ def run(ctx):
     key_from_table = bool(kl) and all(lf.kind == "call" and lf.data[0] == P.gate[0] and lf.path == want and "HashMap::get" in lf.via for lf in kl)
     gets = [(i, t) for (i, t) in b.calls_named("std::collections::HashMap::get", "std::collections::BTreeMap::get")
             if i in S.thresh and P.is_verified_layout(t["args"][0], (fld("keys"),))]
-    lookup_ok = bool(gets) and all(root_ids(b, t["args"][1]) == signer_roots for (i, t) in gets)
+    def _via_step_table(gbb, gt_):
+        """layout.keys.get(k) for an element k of step.pub_keys whose result is filed under k in the step table that is then
+        consulted with the signer's id: the key found for the signer is layout.keys[signer]"""
+        for (_tb, _tt, troot) in step_tables:
+            for (ii, it) in inserts:
+                if len(it["args"]) == 3 and frozenset(root_ids(b, it["args"][0])) == troot and root_ids(b, it["args"][1]) == root_ids(b, gt_["args"][1]):
+                    vl_ = b.trace(it["args"][2], (), lambda tt: callee_name(tt) in GETS)
+                    if vl_ and all(x.kind == "call" and x.data[0] == gbb and x.path[:2] == (SOME, F0) for x in vl_):
+                        return True
+        return False
+    lookup_ok = bool(gets) and all(root_ids(b, t["args"][1]) == signer_roots or _via_step_table(i, t) for (i, t) in gets)
     ctx.inst("C02/D2", "verifying key = layout.keys[key id the link is filed under]", key_from_table and lookup_ok,
              "keys argument <- %s; lookup key <- %s" % (P.leaves_s(vt["args"][2]), [P.leaves_s(t["args"][1]) for (i, t) in gets]), vt["at"])
     # ---- D4
